@@ -206,7 +206,32 @@ fn truncated_line(rng: &mut Rng) -> Vec<u8> {
     line.as_bytes()[..cut].to_vec()
 }
 
+/// One line longer than 64 KiB (a u16 length, a bounded search window, a fixed buffer),
+/// in every shape whose scan for a delimiter or for the end of the line could be cut short.
+fn long_line(rng: &mut Rng) -> Vec<u8> {
+    let n = *rng.pick(&[65_520usize, 65_534, 65_535, 65_536, 65_537, 65_560, 70_000, 131_080]);
+    let unit: &str = *rng.pick(&["a", "a", " ", "é", "x.y", "\0", "1", "-"]);
+    let mut filler = String::with_capacity(n + 8);
+    while filler.len() < n {
+        filler.push_str(unit);
+    }
+    match rng.below(8) {
+        0 => format!("#{filler}"),
+        1 => format!("# key: {filler}"),
+        2 => format!("    int name -> {filler}"),
+        3 => format!("com.a.B -> {filler}:"),
+        4 => format!("    1:2:void {filler}(int) -> a"),
+        5 => format!("# {{\"id\":\"sourceFile\",\"fileName\":\"{filler}\"}}"),
+        6 => format!("    1:2:void m({filler}):3:4 -> a"),
+        _ => filler,
+    }
+    .into_bytes()
+}
+
 fn hostile_piece(rng: &mut Rng) -> Vec<u8> {
+    if rng.chance(1, 300) {
+        return long_line(rng);
+    }
     match rng.below(16) {
         13 | 14 | 15 => {
             let mut v = truncated_line(rng);
@@ -438,6 +463,9 @@ pub fn run(ctx: &Ctx, rep: &mut Reporter) {
         }
         if std::str::from_utf8(&a).is_err() {
             rep.count("inputs_with_invalid_utf8", 1);
+        }
+        if a.len() > 65_000 || b.len() > 65_000 {
+            rep.count("inputs_with_a_line_longer_than_64KiB", 1);
         }
         if rep.wants_sample() && !a.is_empty() && !b.is_empty() {
             let mut s = Json::obj();
